@@ -33,7 +33,7 @@ def gen_cases(ctx):
         if r < 0.75:
             env = {"VK": "p%d.s%d" % (pipe, i)}
             if rng.random() < 0.6:
-                env["E_TASK"] = "stage%d.%d" % (pipe, i)          # overrides a key the task defines
+                env["E_TASK"] = rng.choice(["stage%d.%d" % (pipe, i), "stage%d.%d" % (pipe, i), ""])   # overrides a key the task defines, possibly with the empty string
             if rng.random() < 0.5:
                 env["E_S%d" % i] = "x%d" % i
         elif r < 0.85:
@@ -43,7 +43,7 @@ def gen_cases(ctx):
         if r < 0.65:
             vars_ = {"VS": "p%d.v%d" % (pipe, i)}
             if rng.random() < 0.5:
-                vars_["V_TASK"] = "svar%d.%d" % (pipe, i)
+                vars_["V_TASK"] = rng.choice(["svar%d.%d" % (pipe, i), ""])
         elif r < 0.75:
             vars_ = {}
         d = "/dir/p%d/s%d" % (pipe, i) if rng.random() < 0.4 else ""
